@@ -1,13 +1,35 @@
 PROP = dict(
     level="exploration",
-    technique="property-based testing: exhaustive enumeration of small bit depths + rapid-generated write programs vs map model",
-    level_text="TODO",
-    level_note="TODO",
-    rule="TODO",
-    assumptions=[],
+    exhaustive=True,
+    technique="property-based testing: exhaustive enumeration of the small-bit-depth space + rapid-generated write programs (depths up to 63), "
+              "both against a map model, through PQL and through the field's Go API",
+    level_text="Integer fields are compared with a map column->value model. Small-depth tier (plain enumeration, complete in the thorough tier): every "
+               "bounds pair from -9..9 plus offset/asymmetric bounds, the stored bit depth driven to each reachable d in 0..7 (and the restart path that "
+               "gives base=min), data written by Set, by ImportValue and by a mix with large->small / small->large overwrites and clears, one column per "
+               "writable value over three shards with the extremes duplicated across shards; then every predicate from below to above both the declared "
+               "bounds and the bit-depth range with all six operators, a grid of between intervals in the four strictness forms (including empty ones), "
+               "!= null, and Sum/Min/Max unfiltered and under seven filters (empty, negative-only, other shard, columns without value, BSI conditions) under "
+               "four Shards orders. The same is checked on Field.Value/Sum/Min/Max/Range in-package. Random tier: bounds and values near +-2^k up to "
+               "2^63-1, 2-4 shards, random write programs and predicates. Exploration, not proof, outside the enumerated space.",
+    level_note="Trusted: Go toolchain, rapid, the 150-line map model (duplicated in both test packages). Values/predicates exclude -2^63 (not representable "
+               "in the sign-magnitude storage; see assumptions). Field.Range is only queried with predicates inside the declared bounds (it answers nil "
+               "outside by contract); PQL covers predicates outside. Clearing is done through ImportValue(clear) with the stored value (the only int clear path). "
+               "Worktree carries tmp-fixes for D7/D8 (owned by gF): without them overwrites through ImportValue fail the check.",
+    rule="distinct = hash of (bounds, depth, write mode) in the enumerated tier and of (bounds, write program) in the random tier. Non-trivial = a predicate "
+         "outside the bit-depth range but inside the declared bounds was queried, or an extreme value is tied across shards, or a filter selects only negative "
+         "values, or an overwrite shrinks a value (needs fewer bits), or the mixed write mode (overwrites + clears) was used.",
+    assumptions=["reference model = map[column]int64 in harness/pkg/_root/gq1_model_test.go and harness/pkg/server/gq1_srv_test.go",
+                 "only in-range values are written (out-of-range writes are rejected by the field); -2^63 is never used as bound, value or predicate",
+                 "Sum is compared only when the exact sum fits int64",
+                 "one entry per column in an ImportValue request at API level (in-package: last entry of a column wins, as the fragment code iterates)",
+                 "base != 0 is reached only the way a user can: field created, server/field reopened before its first write (base = min)"],
     tags=["gq1"],
     units=[
-        U("fieldexh", ".", "^TestVerifC14_FieldExhaustive$", 0, 0, sq=4, sth=12, rapid=False),
-        U("fieldrand", ".", "^TestVerifC14_FieldRandom$", 1200, 40000, sq=4, sth=12),
+        U("fieldexh", ".", "^TestVerifC14_FieldExhaustive$", 0, 0, sq=4, sth=12, rapid=False, timeout={"quick": 600, "thorough": 1800}),
+        U("fieldrand", ".", "^TestVerifC14_FieldRandom$", 400, 24000, sq=4, sth=12),
+        U("pqlexh", "./server", "^TestVerifC14_PQLExhaustive$", 0, 0, sq=4, sth=12, rapid=False, timeout={"quick": 600, "thorough": 2400}),
+        U("pqlrand", "./server", "^TestVerifC14_PQLRandom$", 100, 6000, sq=4, sth=12),
+        U("wit", ".", "^TestVerifWitness_(D16|D17|DQA[1-5])$", 0, 0, sq=1, sth=1, rapid=False),
+        U("witapi", "./server", "^TestVerifWitness_DQA6$", 0, 0, sq=1, sth=1, rapid=False),
     ],
 )
